@@ -842,6 +842,112 @@ Example ex_hostile_sale :
   snd (fst (try_sale 1 5 12 (4, false) 7 (o, s))) = s.
 Proof. vm_compute. repeat split; reflexivity. Qed.
 
+(** ================= 7. a premise that cannot be dropped ================= *)
+(** [op_wf] asks that governance does not name the module account as a funder.  Nothing in the
+    code refuses it, and without it clause 1 fails: a sale is then paid by the escrow to itself,
+    a licence appears and the escrow does not grow; once the first licensee has activated, the
+    second cannot.  (Replayed on the real keepers: harness/corpus/C18/08_funder_is_the_module_account.json.) *)
+Definition ex_escrow_funder_ops : list op :=
+  [ SetContracts [(1, 11)]; SetFeegranter 2; SetFunders [escrow];
+    AddLicence (1, false) (3, false) 0 20000000 3;
+    Sale 1 11 (4, false) 7 ].
+
+Lemma funder_premise_refuted :
+  inv ex_s0 /\
+  (forall o, In o ex_escrow_funder_ops -> op_wf o \/ o = SetFunders [escrow]) /\
+  let s := run ex_s0 ex_escrow_funder_ops in
+  map snd (trace ex_s0 ex_escrow_funder_ops) = [Ok; Ok; Ok; Ok; Ok] /\
+  bal s escrow bond = 20000000 /\ lic_sum bond (lics s) = 27000000 /\ gifts s bond = 0 /\
+  let s' := run s [Register (3, false)] in
+  bal s' escrow bond = 0 /\ snd (step s' (Register (4, false))) = Err EInsufficientFunds.
+Proof.
+  split; [exact ex_inv|]. split.
+  - intros o Hin. cbn in Hin.
+    repeat (destruct Hin as [<-|Hin]; [first [right; reflexivity | left; cbn; first [exact I | discriminate]]|]).
+    destruct Hin.
+  - vm_compute. repeat split; reflexivity.
+Qed.
+
+(** ================= 8. the table of authorised sale contracts ================= *)
+
+(** only the governance operation changes it *)
+Lemma step_contracts s o : acct s escrow = Some Module -> (forall l, o <> SetContracts l) ->
+  contracts (fst (step s o)) = contracts s.
+Proof.
+  intros He Hne. destruct (step s o) as [s' out] eqn:E. destruct out;
+    try (pose proof (failed_op_is_noop s o) as Hn; rewrite E in Hn; simpl in *; rewrite Hn; [reflexivity | discriminate]).
+  simpl.
+  assert (Hcreate : forall cr cl d0 amt m s1, create_licence_raw cr cl d0 amt m s = (s1, Ok) -> contracts s1 = contracts s).
+  { intros cr cl d0 amt m s1 Hc. apply (create_ok _ _ _ _ _ _ _ He) in Hc as (_ & _ & _ & _ & _ & _ & _ & _ & _ & _ & _ & Hcfg).
+    now destruct Hcfg as (_ & _ & _ & _ & Hco & _). }
+  destruct o; simpl in E.
+  - apply step_ok_atomically in E. now rewrite (Hcreate _ _ _ _ _ _ E).
+  - apply step_ok_atomically in E. apply (activate_ok _ _ _ He) in E as (l0 & Hx).
+    destruct Hx as (_ & _ & _ & _ & _ & _ & _ & _ & _ & _ & _ & _ & _ & _ & Hco & _). now rewrite Hco.
+  - destruct (clients s who) as [[a l]|]; inversion E; subst. reflexivity.
+  - apply step_ok_atomically in E. apply handle_sale_ok in E as [_ E].
+    apply sale_ok in E as (_ & _ & g & fs & f & s1 & _ & _ & _ & _ & Hc & _ & ->). simpl.
+    now rewrite (Hcreate _ _ _ _ _ _ Hc).
+  - destruct (send s from to d amt) as [s1|e] eqn:Es; inversion E; subst. clear E.
+    apply send_inl in Es as (_ & _ & _ & _ & _ & _ & _ & _ & _ & _ & Hco & _).
+    destruct (to =? escrow); simpl; now rewrite Hco.
+  - destruct (grants s granter grantee); inversion E; subst. simpl. destruct (acct s grantee); reflexivity.
+  - inversion E; subst. reflexivity.
+  - inversion E; subst. reflexivity.
+  - exfalso. now apply (Hne l).
+  - inversion E; subst. destruct (dt <? 0); reflexivity.
+Qed.
+
+Lemma assoc_notin l c : ~ In c (map fst l) -> assoc l c = None.
+Proof.
+  induction l as [|[k v] r IH]; cbn; intros H; [reflexivity|].
+  destruct (k =? c) eqn:E; [apply Z.eqb_eq in E; subst; exfalso; apply H; now left|].
+  apply IH. intros Hin. apply H. now right.
+Qed.
+
+Definition not_set_contracts (x : xop) : Prop :=
+  match xop_base x with Some (SetContracts _) => False | _ => True end.
+
+Lemma xrun_contracts xs : forall s, inv_struct s -> funders s <> Some [] -> Forall not_set_contracts xs ->
+  contracts (xrun s xs) = contracts s.
+Proof.
+  induction xs as [|x r IH]; intros s Hs Hf Hn; [reflexivity|].
+  inversion Hn; subst. rewrite xrun_cons.
+  assert (Hs' : inv_struct (fst (xstep s x))) by now apply xstep_struct.
+  assert (Hf' : funders (fst (xstep s x)) <> Some []).
+  { apply (xstep_preserves (fun s' => funders s' <> Some [])); auto; [apply Hs|].
+    intros o _. apply step_funders_ne; auto. apply Hs. }
+  rewrite (IH _ Hs' Hf' H2).
+  apply (xstep_preserves (fun s' => contracts s' = contracts s)); auto; [apply Hs|].
+  intros o Eb. apply step_contracts; [apply Hs|].
+  intros l ->. unfold not_set_contracts in H1. now rewrite Eb in H1.
+Qed.
+
+(** governance replaces the whole table: a chain that is not in the new list is not authorised,
+    stays so through any history without another governance decision, and every sale reported
+    from it — with whatever contract address, the formerly authorised one included — changes nothing *)
+Theorem dropped_chain_stays_unauthorised_thm : forall (s0 : state) (l : list (Z * Z)) (xs : list xop) (c : Z),
+  inv_struct s0 -> funders s0 <> Some [] -> ~ In c (map fst l) -> Forall not_set_contracts xs ->
+  let s := xrun (fst (step s0 (SetContracts l))) xs in
+  contracts s c = None /\
+  forall contract client amount,
+    step s (Sale c contract client amount) = (s, Err ENoContract).
+Proof.
+  intros s0 l xs c Hs Hf Hnc Hxs s.
+  assert (H1 : inv_struct (fst (step s0 (SetContracts l)))) by now apply step_struct.
+  assert (H2 : funders (fst (step s0 (SetContracts l))) <> Some []) by exact Hf.
+  assert (Hc : contracts s c = None).
+  { unfold s. rewrite (xrun_contracts xs _ H1 H2 Hxs). cbn. unfold contracts_of.
+    apply assoc_notin. rewrite map_rev. intros Hin. apply Hnc. now apply in_rev. }
+  split; [exact Hc|]. intros contract client amount.
+  cbn [step]. unfold atomically, handle_sale_raw. now rewrite Hc.
+Qed.
+
+(** ... and for a chain that is in the list, the last entry is the authorised contract *)
+Theorem set_contracts_table_thm : forall (s : state) (l : list (Z * Z)) (c : Z),
+  contracts (fst (step s (SetContracts l))) c = assoc (rev l) c.
+Proof. reflexivity. Qed.
+
 (** ================= 6. the source facts of the second round ================= *)
 Lemma source_round2 :
   Gen.C18.create_collab_calls = ["accountKeeper.AddressCodec"; "accountKeeper.HasAccount"; "accountKeeper.NewAccount";
@@ -869,31 +975,9 @@ Lemma source_round2 :
                                    "processAttestation"; "emitObservedEvent"]%string /\
   Gen.C18.try_attestation_callers = ["attestationTally"]%string /\
   Gen.C18.endblocker_defers_recover = true /\
-  Gen.C18.endblocker_calls = ["createBatch"; "attestationTally"; "pruneAttestations"]%string.
+  Gen.C18.endblocker_calls = ["createBatch"; "attestationTally"; "pruneAttestations"]%string /\
+  Gen.C18.set_contracts_calls = ["IterAllFnc"; "Delete"; "Save"]%string /\
+  Gen.C18.set_contracts_wipe_callback = "{ st.Delete(key) return true }"%string /\
+  Gen.C18.iter_all_fnc_stop_test = "if !fnc(iterator.Key(), val) { return nil }"%string.
 Proof. vm_compute. repeat split; reflexivity. Qed.
 
-(** ================= 7. a premise that cannot be dropped ================= *)
-(** [op_wf] asks that governance does not name the module account as a funder.  Nothing in the
-    code refuses it, and without it clause 1 fails: a sale is then paid by the escrow to itself,
-    a licence appears and the escrow does not grow; once the first licensee has activated, the
-    second cannot.  (Replayed on the real keepers: harness/corpus/C18/08_funder_is_the_module_account.json.) *)
-Definition ex_escrow_funder_ops : list op :=
-  [ SetContracts [(1, 11)]; SetFeegranter 2; SetFunders [escrow];
-    AddLicence (1, false) (3, false) 0 20000000 3;
-    Sale 1 11 (4, false) 7 ].
-
-Lemma funder_premise_refuted :
-  inv ex_s0 /\
-  (forall o, In o ex_escrow_funder_ops -> op_wf o \/ o = SetFunders [escrow]) /\
-  let s := run ex_s0 ex_escrow_funder_ops in
-  map snd (trace ex_s0 ex_escrow_funder_ops) = [Ok; Ok; Ok; Ok; Ok] /\
-  bal s escrow bond = 20000000 /\ lic_sum bond (lics s) = 27000000 /\ gifts s bond = 0 /\
-  let s' := run s [Register (3, false)] in
-  bal s' escrow bond = 0 /\ snd (step s' (Register (4, false))) = Err EInsufficientFunds.
-Proof.
-  split; [exact ex_inv|]. split.
-  - intros o Hin. cbn in Hin.
-    repeat (destruct Hin as [<-|Hin]; [first [right; reflexivity | left; cbn; first [exact I | discriminate]]|]).
-    destruct Hin.
-  - vm_compute. repeat split; reflexivity.
-Qed.
